@@ -70,6 +70,15 @@ PROPS = {
              "indices {MIN,-2,-1,0..depth+2,MAX} x one-hot BOOLEAN families x bystander variants; distinct = (name, depth, index, hot).",
         floors={"79 instructions": lambda a, t: set_n(a, "instructions") >= 79},
     ),
+    "C08": dict(
+        jobs=lambda tier: both(6),
+        eval_keys=["steps", "api_relations", "relations"],
+        rule="random code trees t (<= 14 points, depth <= 4, every atom kind, floats on a 1/8 grid) with a planted sub-item / near miss u and "
+             "a substitute w; every CODE list-surgery instruction on (t,u,w) with indices in [-2S,2S] + {MIN,MAX}; Item::size/traverse/insert/"
+             "contains/container/substitute/equals checked at every point of t; follow-up relations INSERT->EXTRACT, POSITION->EXTRACT, "
+             "DISCREPANCY symmetry; distinct = (op, index class, depth, size, operands equal?).",
+        floors={"19 instructions": lambda a, t: set_n(a, "instructions") >= 19},
+    ),
     "C09": dict(
         jobs=lambda tier: both(8, None, stall_s=40),
         rule="overlap family: all length pairs 0..4 x 0..4 (0..6 thorough) x offsets [-len-2, len+2] + {MIN, MIN+1, MAX-1, MAX} x value "
